@@ -210,3 +210,25 @@ def bbox_against_dense_sampling(c, kinds):
     sc = max(1.0, max(abs(v) for v in xs + ys))
     c.ensures('contains-samples', min(xs) >= xmin - 1e-9 * sc and max(xs) <= xmax + 1e-9 * sc and min(ys) >= ymin - 1e-9 * sc and max(ys) <= ymax + 1e-9 * sc)
     c.ensures('tight', abs(min(xs) - xmin) <= 1e-4 * sc and abs(max(xs) - xmax) <= 1e-4 * sc and abs(min(ys) - ymin) <= 1e-4 * sc and abs(max(ys) - ymax) <= 1e-4 * sc)
+
+
+@contract('C08', 'path.CubicBezier.bbox', params=[{'how': h, '_bounded_only': True} for h in ('elevated-quadratic', 'elevated-line', 'tiny-cubic-term')])
+def cubic_bbox_when_the_cubic_term_vanishes_up_to_rounding_sampled(c, how):
+    """bounded stand-in for the quantifier's "cubics whose coordinate polynomial degenerates to
+    lower degree": in floats the t^3 coefficient of a degree-elevated quadratic (what exporters
+    write for Q commands) is ~1e-16, not 0 - the closed-form branch must not lose the extremum"""
+    import svgpathtools.path as sp
+    q0, q1, q2 = c.cplx('q0'), c.cplx('q1'), c.cplx('q2')
+    if how == 'elevated-line':
+        q1 = (q0 + q2) / 2 + (q2 - q0) * (abs(c.real('s')) % 1.0 - 0.5)
+    P = [q0, q0 + 2 / 3.0 * (q1 - q0), q2 + 2 / 3.0 * (q1 - q2), q2]
+    if how == 'tiny-cubic-term':
+        eps = 10 ** (-16 + 8 * (abs(c.real('e')) % 1.0))
+        P[3] = P[3] + eps * complex(1, -1) * max(1.0, abs(q2))
+    seg = sp.CubicBezier(*P)
+    xmin, xmax, ymin, ymax = seg.bbox()
+    zs = [bez.bern(P, k / 1000.0) for k in range(1001)]
+    xs, ys = [z.real for z in zs], [z.imag for z in zs]
+    sc = max(1.0, max(abs(z) for z in P))
+    c.ensures('contains-samples', min(xs) >= xmin - 1e-9 * sc and max(xs) <= xmax + 1e-9 * sc and min(ys) >= ymin - 1e-9 * sc and max(ys) <= ymax + 1e-9 * sc)
+    c.ensures('tight', abs(min(xs) - xmin) <= 1e-4 * sc and abs(max(xs) - xmax) <= 1e-4 * sc and abs(min(ys) - ymin) <= 1e-4 * sc and abs(max(ys) - ymax) <= 1e-4 * sc)
